@@ -1,6 +1,7 @@
 import EAO.Driver.Codec
 import EAO.Model.CHP
 import EAO.Model.CHPMinLoad
+import EAO.Model.CHPProfile
 import EAO.Spec.UnitCommit
 /-!
 # EAO.Driver.CHP — line-protocol handlers for the CHP / Plant builder and the unit-commitment automaton
@@ -12,6 +13,9 @@ import EAO.Spec.UnitCommit
   (parameters in the `getParam` encoding, durations and ramp as rationals in main time units)
   optional: `"min_load": {"threshold": param|null, "costs": param|null}` (class `CHPAsset_with_min_load_costs`:
   the booleans and rows are added on top of the CHP problem); `"costs_only": true` → `{"c": [...]}` | `{"error"}`
+  optional: `"profiles": {"start_lo","start_up","shut_lo","shut_up","start_lo_h","start_up_h","shut_lo_h","shut_up_h":
+  [rat]|null, "ramp_freq_s": n, "same_freq": bool}` (start / shutdown ramp profiles; `info` then also has
+  `shut_idx`, `S`, `Q`)
 * `{"op":"uc_accepts", "R":n, "D":n, "tar":n, "tao":n, "on":[bool…]}` or with `"patterns":[[bool…]…]`
   → `{"accepts": b, "spec": b, "guard": b}` resp. `{"accepts":[…], "spec":[…], "guard": b}`
 -/
@@ -44,10 +48,21 @@ def handleCHP (op : String) (j : Json) : Option (Except String Json) :=
     let ml ← fieldOpt j "min_load" (fun m => do
       pure ({ threshold := ← fieldOpt m "threshold" getParam, costs := ← fieldOpt m "costs" getParam } : MinLoadP))
     let costsOnly := (← fieldOpt j "costs_only" Json.getBool?).getD false
+    let prof ← fieldOpt j "profiles" (fun m => do
+      pure ({ startLo := ← fieldOpt m "start_lo" getRats, startUp := ← fieldOpt m "start_up" getRats,
+              shutLo := ← fieldOpt m "shut_lo" getRats, shutUp := ← fieldOpt m "shut_up" getRats,
+              startLoH := ← fieldOpt m "start_lo_h" getRats, startUpH := ← fieldOpt m "start_up_h" getRats,
+              shutLoH := ← fieldOpt m "shut_lo_h" getRats, shutUpH := ← fieldOpt m "shut_up_h" getRats,
+              rampFreqSec := ← field m "ramp_freq_s" Json.getNat?, sameFreq := ← field m "same_freq" Json.getBool? } : CHPProfP))
+    let profActive := match prof with | some q => q.active | none => false
     let jErr (e : BuildError) : Json := Json.mkObj [("error", Json.str e.toString)]
     if costsOnly then
       let c := do
-        let c ← costsOnlyCHP p base g prices unitS stepS
+        let c ← (if profActive then do
+            match ← resolveCHPP p (prof.getD default) base g prices unitS stepS true with
+            | none => pure base.c
+            | some r => pure r.cost
+          else costsOnlyCHP p base g prices unitS stepS)
         match ml with
         | none => pure c
         | some q => costsOnlyMinLoad q c g prices
@@ -59,6 +74,28 @@ def handleCHP (op : String) (j : Json) : Option (Except String Json) :=
       match ml with
       | none => pure a
       | some q => buildMinLoad q a g prices
+    if profActive then
+      match resolveCHPP p (prof.getD default) base g prices unitS stepS false with
+      | .error e => pure (jErr e)
+      | .ok none =>
+        match finish base with
+        | .error e => pure (jErr e)
+        | .ok a => pure (Json.mkObj [("problem", jAsset a), ("info", Json.null)])
+      | .ok (some rp) =>
+        let r := rp.core
+        let L := r.layout
+        match finish (assembleCHPP rp) with
+        | .error e => pure (jErr e)
+        | .ok a =>
+        pure (Json.mkObj [("problem", jAsset a),
+          ("info", Json.mkObj [("R", jNat r.R), ("D", jNat r.D), ("tar", jNat r.tar), ("tao", jNat r.tao),
+            ("inc_on", Json.bool r.incOn), ("inc_start", Json.bool r.incStart), ("heat", Json.bool r.heat),
+            ("fuel", match r.fuel with | some f => Json.str f | none => Json.null),
+            ("heat_idx", jNat L.heatIdx), ("on_idx", jNat L.onIdx), ("start_idx", jNat L.startIdx),
+            ("shut_idx", jNat rp.shutIdx), ("S", jNat rp.prof.S), ("Q", jNat rp.prof.Q),
+            ("sl", jRats rp.prof.sl), ("su", jRats rp.prof.su), ("ql", jRats rp.prof.ql), ("qu", jRats rp.prof.qu),
+            ("profiles", Json.bool true), ("n_chp_vars", jNat rp.cost.length)])])
+    else
     match resolveCHP p base g prices unitS stepS with
     | .error e => pure (jErr e)
     | .ok none =>
